@@ -845,6 +845,22 @@ def gen_groups(rng, tier, start_index=0):
                          allow_custom=True), rel))
         groups.append(g)
 
+    # numbers inside contributing properties, over the branch structure of the number formatter: one double per
+    # decade 1e-9..1e-3 and 1e14..1e23 (the notation switches of repr and of ECMAScript), with 1, 2 and 17 digits,
+    # as a section entropy of a file's windows-pebinary-ext and as a contributing float of a custom observable
+    decades = list(range(-9, -2)) + list(range(14, 24)) if tier != "thorough" else list(range(-30, 31))
+    for e in decades:
+        for mant in ("1", "2.5", "9.999999999999999", "%.16f" % (1 + rng.random() * 8.9)):
+            x = float("%se%d" % (mant, e)) * rng.choice([1, 1, -1])
+            items = [("name", "pe-%d" % e),
+                     ("extensions", O([("windows-pebinary-ext", O([("pe_type", "exe"), ("sections", A([O([("name", ".text"), ("entropy", F(x))])]))]))]))]
+            groups.append([(mk("file", items, "ctor"), "base"), (mk("file", list(reversed(items)), "parse"), "same")])
+            counter[0] += 1
+            ty = "x-verif-%d" % counter[0]
+            groups.append([(mk(ty, [("p", F(x)), ("q", I(int(x)) if abs(x) < 2 ** 53 else "big")], rng.choice(["ctor", "parse"]),
+                               custom={"props": [["p", "float"], ["q", "int" if abs(x) < 2 ** 53 else "str"]], "contrib": ["p", "q"]},
+                               allow_custom=True), "base")])
+
     # exceptions raised inside _generate_id (no object exists: the model is fed the raw input)
     for bad, kind in ((O([("a", None)]), "dict"), (O([("a", O([("b", A([I(1), None]))]))]), "dict"),
                       ({"f": "nan"}, "float"), ({"f": "inf"}, "float"), ({"f": "-inf"}, "float")):
